@@ -88,7 +88,7 @@ def run(ctx):
     schema = exhaustive(ctx)
     binp = ctx.build_harness(HARNESS)
     q = ctx.quick()
-    ctx.harness_ok(binp, "TestVF_ReplyShape", {"VF_SCHEMA": schema, "VF_ROUNDS": 1 if q else 6}, timeout=900)
+    ctx.harness_ok(binp, "TestVF_ReplyShape", {"VF_SCHEMA": schema, "VF_ROUNDS": 1 if q else 6, "VF_FAULT_DEPTH": 2 if q else 5}, timeout=900)
     trace = os.path.join(ctx.scratch, "replyshape.ndjson")
     summ = json.load(open(os.path.join(ctx.scratch, "replyshape.summary.json")))
     if summ["schema_diff"]:
@@ -115,9 +115,11 @@ def run(ctx):
     ctx.cov["rule"] = ("every NFSv3 procedure and every MOUNT v1/v3 procedure with several well-formed argument sets, the primary set cut at "
                        "every 4-byte boundary, random / huge-length / all-ones garbage, unknown programs, versions and procedures and refused "
                        "credentials, in the conditions normal, read-only, rate limited (buckets emptied before each call) and policy drain "
-                       "(a gated request held in the backend while UpdatePolicyOptions waits), through HandleCall and over TCP with record "
+                       "(a gated request held in the backend while UpdatePolicyOptions waits) and faulty backend (for every procedure the k-th "
+                       "backend operation of the request fails with *os.PathError / *os.LinkError wrapping each of 33 errnos; symlink loops, "
+                       "rename into own subtree / onto a non-empty directory on the plain backend), through HandleCall and over TCP with record "
                        "marking; distinct_nontrivial = distinct (procedure, status) pairs that reached the wire")
-    ctx.cov["spec_actions_covered_by_impl"] = ["Answer(normal)", "Answer(readonly)", "Answer(ratelimited)", "Answer(drain)",
+    ctx.cov["spec_actions_covered_by_impl"] = ["Answer(normal)", "Answer(readonly)", "Answer(ratelimited)", "Answer(drain)", "Answer(faulty)",
                                                "PROG_UNAVAIL", "PROG_MISMATCH", "PROC_UNAVAIL", "GARBAGE_ARGS", "MSG_DENIED"]
     ctx.assumptions += ["replies larger than 600 words are judged by the Go XDR interpreter alone (it runs the schema dumped from the "
                         "specification and is compared with the specification's own interpreter on every smaller reply)",
